@@ -159,6 +159,42 @@ CLAIMED = {
                 'code-shaped registry model (counterexamples replayed on real code and reported as findings); -simulate histories replayed '
                 'on real Template objects; a seeded corpus realised on the eight paths in fresh processes under PYTHONHASHSEED 0/1/2/7 '
                 'sharing a module directory and validated by Trace_Paths.tla. Bounded, not a proof.'},
+    'C09': {       'design_ref': 'DESIGN.md section 3, C09',
+        'note': "Trusts TLC, sys.addaudithook, POSIX path semantics without symlinks; '..name' first segments and out-and-back URIs "
+                'accepted either way; file="" not generated (C07 finding F11).',
+        'spec': 'Containment.tla, MC_Containment.tla, Enum_Containment.tla, Trace_Containment.tla',
+        'technique': 'TLA+ model checking (TLC) + spec-to-code replay + trace validation',
+        'text': 'TLC checks Contained, ModulePathInside, OutsideRaises, OutsideHitRefused, PipelinesAgree, SummaryMatches exhaustively on '
+                'the step machine (adjust_uri / get_template probe loop / Template.__init__ as separate pipelines) for every URI up to 2 '
+                '(thorough 3) segments in four root configurations, and SumOK for every URI of <=4 segments (thorough 5-6 on reduced '
+                'alphabets) x direct/Template()/callers at depth 0..3; every exported request is replayed on a real TemplateLookup over a '
+                'real tree with sentinel files outside the roots through get_template, has_template, Template(), put_string, include, '
+                'inherit, namespace and the Namespace API, comparing outcome, filename, content, module path and audited file operations; '
+                'random URIs up to 12 segments are judged by Trace_Containment.tla. Bounded, not a proof.'},
+    'C10': {       'design_ref': 'DESIGN.md section 3, C10',
+        'note': 'Character facts (entities, codecs, isspace) come from CPython and are trusted; universality over code points rests on the '
+                'abstraction into ~32 classes.',
+        'spec': 'Escape.tla, MC_Escape.tla, EscapeInput.tla, Trace_Escape.tla',
+        'technique': 'TLA+ model checking (TLC) + spec-to-code replay + trace validation',
+        'text': 'TLC checks Neutral, Invertible, UrlSafe, UrlInvertible, EntityExact, TrimOnlyEnds, DecodeStr, HandlerTotal on every '
+                'string of length <=3 (thorough 4) over a 33-character alphabet and exports the expected output of h, x, u, entity, '
+                'unescape, trim, decode and the htmlentityreplace handler for ascii/latin-1/cp1251/shift_jis/utf-8; every string is '
+                'compared with the real filters and Template.render; every code point U+0000..U+10FFFF is swept by class against the shape '
+                'TLC computed for its class representative; random Unicode strings are judged by Trace_Escape.tla. Bounded, not a proof.'},
+    'C17': {       'design_ref': 'DESIGN.md section 3, C17',
+        'note': 'Trusts TLC, the concretisation (template text generator), the token/kwargs projection and the recording backend/proxy '
+                '(exercised by negative controls). No wall-clock expiry; cache.set only on the reference backend; dogpile one region per '
+                'template.',
+        'spec': 'Cache.tla, MC_Cache.tla, Trace_Cache.tla, CacheProgs.tla',
+        'technique': 'TLA+ model checking (TLC) + counterexample/spec-to-code replay + trace validation',
+        'text': 'TLC checks AtMostOncePerKey, ExecIffMiss, ReplayExact, DisabledExecutesAlways, ArgsPrecedence, Isolation exhaustively on '
+                'bounded worlds of Cache.tla (intended design: strict; code-shaped model: modulo three recorded deviations whose '
+                'counterexamples are replayed on the real code); TLC -simulate histories of length 30 over seeded random templates '
+                '(page/def/nested def/named+anonymous block, cache_key expressions, cache_* args, buffered/filter, namespaces, includes, '
+                'inheritance, colliding URIs) are replayed action by action on real templates over the reference dict backend, Beaker '
+                'memory/file and dogpile.cache, comparing outputs, execution counters and every backend call; seeded random histories '
+                'recorded from real templates are validated against Trace_Cache.tla with all invariants evaluated after every event. '
+                'Bounded, not a proof.'},
 }
 
 NOT_BUILT_REASON = "check not built yet (build in progress)"
